@@ -3881,12 +3881,15 @@ pub fn c11_notification_protocol(nd: &mut Nondet) {
     let mut accepted = false;             // the user accepted the current inbound substream
     let mut requested_since_closed = false;
     let mut closing = false;              // the user asked to close the open stream and has not yet seen the closed event
+    let mut lost = false;                 // the connection of the open stream went away and the closed event has not arrived yet
 
     let steps = param("steps", 4);
     // `warm` leading steps are fixed: connect, the user asks for a stream, the remote answers our handshake, the remote opens
     // its own substream and handshakes (histories that start from a stream that is open or about to open)
     let warm = param("warm", 0);
-    const WARM: [u64; 4] = [0, 2, 4, 5];
+    // (a longer prefix continues: the user closes the stream, the remote opens a new substream and handshakes, the user accepts
+    // it, the protocol's own substream is negotiated - all before the old stream's task has run)
+    const WARM: [u64; 8] = [0, 2, 4, 5, 3, 5, 6, 4];
     let total = warm + steps + 2;         // the last two steps settle: the connection is lost, then everything is polled
     for step in 0..total {
         let forced = step < warm;
@@ -3901,10 +3904,10 @@ pub fn c11_notification_protocol(nd: &mut Nondet) {
             let mut sane = true;
             loop {
                 match Pin::new(&mut handle).poll_next(&mut cx) {
-                    Poll::Ready(Some(NotificationEvent::NotificationStreamClosed { .. })) => { check("c11.opened-and-closed-alternate", open); open = false; closing = false; accepted = false; requested_since_closed = false; }
+                    Poll::Ready(Some(NotificationEvent::NotificationStreamClosed { .. })) => { check("c11.opened-and-closed-alternate", open); open = false; closing = false; lost = false; accepted = false; requested_since_closed = false; }
                     Poll::Ready(Some(NotificationEvent::NotificationStreamOpened { .. })) => { sane = false; }
                     Poll::Ready(Some(NotificationEvent::ValidateSubstream { .. })) => { validation_pending = true; }
-                    Poll::Ready(Some(NotificationEvent::NotificationStreamOpenFailure { .. })) => { check("c11.no-open-failure-while-the-stream-is-open", !open || closing); answers += 1; outcomes += 1; }
+                    Poll::Ready(Some(NotificationEvent::NotificationStreamOpenFailure { .. })) => { check("c11.no-open-failure-while-the-stream-is-open", !open || closing || lost); answers += 1; outcomes += 1; }
                     Poll::Ready(Some(NotificationEvent::NotificationReceived { .. })) => { check("c11.notifications-only-while-open", open); }
                     Poll::Ready(Some(_)) => {}
                     _ => break,
@@ -3947,7 +3950,7 @@ pub fn c11_notification_protocol(nd: &mut Nondet) {
             }
             1 => {
                 match connection.take() {
-                    Some(id) => { check("c11.transport-event-is-queued", kernel.connection_closed(peer, id)); cover("c11.disconnected"); }
+                    Some(id) => { check("c11.transport-event-is-queued", kernel.connection_closed(peer, id)); if open { lost = true; } cover("c11.disconnected"); }
                     None => { if !settle { assume(false); } }
                 }
             }
@@ -4007,7 +4010,7 @@ pub fn c11_notification_protocol(nd: &mut Nondet) {
             6 => {
                 if !validation_pending { assume(false); }
                 validation_pending = false;
-                if nd.bool("accept") { accepted = true; accepts += 1; handle.send_validation_result(peer, ValidationResult::Accept); cover("c11.user.accept"); }
+                if forced || nd.bool("accept") { accepted = true; accepts += 1; handle.send_validation_result(peer, ValidationResult::Accept); cover("c11.user.accept"); }
                 else {
                     // rejecting the peer's substream also revokes the user's own pending request for that peer (by design, no event)
                     handle.send_validation_result(peer, ValidationResult::Reject);
@@ -4047,6 +4050,13 @@ pub fn c11_notification_protocol(nd: &mut Nondet) {
                     NotificationEvent::NotificationStreamOpened { peer: p, direction, .. } => {
                         cover("c11.event.opened");
                         check("c11.event-names-the-peer", p == peer);
+                        // The closed event of a stream comes from that stream's own task. Once the user closed the stream or its
+                        // connection was lost, nothing makes the protocol task wait for that task: if it is not scheduled for long
+                        // enough, a complete new stream can open first (recorded finding C11-stale-stream-task, own check id).
+                        if open && (closing || lost) {
+                            cover("c11.race.stale-stream-task");
+                            check("c11.race: new stream opens before the old stream's task reported it closed", false);
+                        }
                         check("c11.opened-and-closed-alternate", !open);
                         open = true;
                         // the stream exists because the user asked for it or accepted the remote's request
@@ -4060,15 +4070,16 @@ pub fn c11_notification_protocol(nd: &mut Nondet) {
                         check("c11.opened-and-closed-alternate", open);
                         open = false;
                         closing = false;
+                        lost = false;
                         accepted = false;
                         requested_since_closed = false;
                     }
                     NotificationEvent::NotificationStreamOpenFailure { peer: p, .. } => {
                         cover("c11.event.open-failure");
                         check("c11.event-names-the-peer", p == peer);
-                        // (a stream the user itself is closing counts as closed here: its closed event comes from the stream's own
-                        // task and may be overtaken by the answer to a later request)
-                        check("c11.no-open-failure-while-the-stream-is-open", !open || closing);
+                        // (a stream the user itself is closing, or whose connection is gone, counts as closed here: its closed event
+                        // comes from the stream's own task and may be overtaken by the answer to a later request)
+                        check("c11.no-open-failure-while-the-stream-is-open", !open || closing || lost);
                         answers += 1;
                         outcomes += 1;
                     }
